@@ -42,6 +42,9 @@ func (s *sink) Violation(prop, key, what string, witness interface{}) {
 func (s *sink) Count(key string, n int64) { s.r.Count(key, n) }
 
 func quietLogs() {
+	if os.Getenv("VERIF_LOGS") != "" {
+		return
+	}
 	for _, n := range []string{"raft", "rsm", "logdb", "raftpb", "dragonboat", "config", "transport", "grpc", "tan", "registry", "settings", "server", "utils", "fileutil", "pebblekv", "tests", "order"} {
 		logger.GetLogger(n).SetLevel(logger.CRITICAL)
 	}
